@@ -1,0 +1,18 @@
+//go:build verif
+
+package client
+
+import (
+	"github.com/cosmos/cosmos-sdk/client"
+)
+
+// This file is compiled only with the build tag `verif`. It adds no behaviour: it lets an external
+// conformance driver construct a Client whose queries go through an injected client.Context (e.g. one
+// whose node answers ABCI queries from an in-process application), without dialling a node.
+
+// NewVerifClient returns a Client that uses the given SDK client context for every query. The RPC
+// client, the transaction factory and the retry settings are left at their zero values: Subscribe,
+// Broadcast* and Stop must not be called on it.
+func NewVerifClient(ctx client.Context) *Client {
+	return &Client{context: ctx}
+}
